@@ -219,6 +219,40 @@ Fixpoint restrict_go (enabled : nat -> bool) (m : gmap N N) (n : N) (calls : lis
 Definition restrict_calls (enabled : nat -> bool) (calls : list scall) : list scall :=
   restrict_go enabled ∅ 0%N calls.
 
+(** The same restriction on host calls: what remains of a host trace when the spans and events whose
+    metadata the predicate rejects are taken out (with every call about such a span), the remaining
+    spans being renumbered in order of creation. *)
+Definition restrict_pk (m : gmap N N) (p : pkind) : pkind :=
+  match p with
+  | PExplicit q => match m !! q with Some q' => PExplicit q' | None => PRoot end
+  | _ => p
+  end.
+
+Definition restrict_hstep (pred : cs_data -> bool) (m : gmap N N) (n : N) (c : hcall)
+  : list hcall * gmap N N * N :=
+  match c with
+  | HRegister _ => ([c], m, n)
+  | HNewSpan h md p vals =>
+      if pred md
+      then ([HNewSpan (n + 1)%N md (restrict_pk m p) vals], <[h := (n + 1)%N]> m, (n + 1)%N)
+      else ([], m, n)
+  | HRecord h vals => (match m !! h with Some i => [HRecord i vals] | None => [] end, m, n)
+  | HFollows a b =>
+      (match m !! a, m !! b with Some a', Some b' => [HFollows a' b'] | _, _ => [] end, m, n)
+  | HEvent md p vals => (if pred md then [HEvent md (restrict_pk m p) vals] else [], m, n)
+  | HEnter h => (match m !! h with Some i => [HEnter i] | None => [] end, m, n)
+  | HExit h => (match m !! h with Some i => [HExit i] | None => [] end, m, n)
+  | HTryClose h => (match m !! h with Some i => [HTryClose i] | None => [] end, m, n)
+  end.
+
+Fixpoint restrict_hgo (pred : cs_data -> bool) (m : gmap N N) (n : N) (calls : list hcall) : list hcall :=
+  match calls with
+  | [] => []
+  | c :: r => let '(out, m', n') := restrict_hstep pred m n c in out ++ restrict_hgo pred m' n' r
+  end.
+Definition restrict_hcalls (pred : cs_data -> bool) (calls : list hcall) : list hcall :=
+  restrict_hgo pred ∅ 0%N calls.
+
 (** the spans and events a call sequence delivers, by call site *)
 Definition delivered_sites (calls : list hcall) : list cs_data :=
   flat_map (fun c => match c with HNewSpan _ md _ _ | HEvent md _ _ => [md] | _ => [] end) calls.
